@@ -1,5 +1,5 @@
-\* flush / close of ONE Elasticsearch store under every outcome of the _bulk requests (two chunks, one retry), re-open after a failed close;
-\* repaired variant (records carry a client-generated _id): every invariant holds
+\* the code as it is, but every _bulk request is indexed completely or not at all and the buffer fits into one chunk:
+\* exactly-once holds, also across a flush that raised (the buffer is kept and sent again by the next flush)
 SPECIFICATION Spec
 CONSTANTS
   TypeOf <- TEsEs
@@ -12,19 +12,19 @@ CONSTANTS
   Ctxs <- CtxOne
   WorldsOf <- WorldsOne
   PutArgs <- PutOne
-  ChunkSize = 2
-  MaxRetries = 1
-  Alpha <- AlphaAll
+  ChunkSize = 3
+  MaxRetries = 2
+  Alpha <- AlphaWhole
   RefreshAlpha <- RBoth
   MaxRecs = 3
   MaxClock = 0
   MaxMeta = 0
-  MaxCalls = 3
+  MaxCalls = 4
   MaxOpens = 2
   ExplicitRel = 5
   ExplicitAbs = 7
-  IdempotentIds = TRUE
-  DocMetaAlways = TRUE
+  IdempotentIds = FALSE
+  DocMetaAlways = FALSE
 VIEW view
 INVARIANT TypeOK
 INVARIANT InvNoLoss
